@@ -75,6 +75,8 @@ type c07Opts struct {
 	SrcMax   int64  `json:"src_max_rows,omitempty"`
 	// encryption of the source file (same modes and keys as Encrypt)
 	SrcEncrypt string `json:"src_encryption,omitempty"`
+	// the file is written without bloom filters (members of the "multi" sub-check only)
+	NoBloom bool `json:"no_bloom,omitempty"`
 }
 
 type c07Case struct {
@@ -89,6 +91,9 @@ type c07Case struct {
 	file      []byte
 	misplaced map[[2]int]string // (row group, leaf) -> what is wrong with the chunk's filter region
 	groups    []c07Group        // "buffer" path: output row group -> WriteRowGroup call (see bufferGroup)
+	srcRows   []int64           // file-* paths: rows of the source file's row groups
+	packed    []c07Packed       // "file-merge" path: output row group -> batch of source row groups (see packedGroup)
+	packedOk  int               // 0 not computed, 1 layout predicted, 2 not predictable
 }
 
 func (c c07Col) phys() string {
@@ -481,7 +486,7 @@ func (cs *c07Case) options(src bool) []parquet.WriterOption {
 		}
 		filters = append(filters, parquet.SplitBlockFilter(bits, c.Name))
 	}
-	if !(src && o.SrcBloom == "none") {
+	if !(src && o.SrcBloom == "none") && !o.NoBloom {
 		opts = append(opts, parquet.BloomFilters(filters...))
 	}
 	maxRows, codec, pagev := o.MaxRows, o.Codec, o.PageV
@@ -752,6 +757,10 @@ func (cs *c07Case) write() (data []byte, err error) {
 		sf, err := parquet.OpenFile(bytes.NewReader(src.Bytes()), int64(src.Len()), sopts...)
 		if err != nil {
 			return nil, fmt.Errorf("source: %w", err)
+		}
+		cs.srcRows = nil
+		for _, rg := range sf.RowGroups() {
+			cs.srcRows = append(cs.srcRows, rg.NumRows())
 		}
 		switch cs.Path {
 		case "file-merge":
@@ -1417,6 +1426,37 @@ func c07StrategyL2(ctx *core.Ctx, b *c07Batch, cs *c07Case, f *parquet.File, rgi
 		} else {
 			ctx.Hist("files.presize", "later-group-of-split-call")
 		}
+	case "file-merge":
+		// WriteRowGroup(MergeRowGroups(file row groups)): writeSegmentsPacked batches the source row groups
+		// (Lean `packBatches`); a batch of >= 2 is re-encoded into ONE output row group whose filter is
+		// sized once for the batch (Lean `packedPresize` = configureBloomFiltersForSegments).
+		g, ok := cs.packedGroup(ctx, b, f, rgi)
+		if !ok || len(g.segs) < 2 {
+			ctx.Hist("files.strategy", "skipped-presize-unknown")
+			return
+		}
+		total := int64(0)
+		var toks []string
+		for _, si := range g.segs {
+			lo, hi := cs.srcSpan(si)
+			nv := int64(0)
+			for _, row := range cs.rows[lo:hi] {
+				nv += int64(max(1, len(row[ci])))
+			}
+			total += nv
+			toks = append(toks, fmt.Sprintf("%d.1", nv))
+		}
+		presized = parquet.SplitBlockFilter(col.Bits, col.Name).Size(total)
+		preq := fmt.Sprintf("bloom.packsize %d %s", col.Bits, strings.Join(toks, ","))
+		want := fmt.Sprintf("ok %d", presized)
+		b.add(preq, func(resp string) {
+			if resp != want {
+				d := where()
+				d["request"], d["go"], d["lean"] = preq, want, resp
+				ctx.Fail("L2", "packed-presize-vs-mirror", "harness transcription of configureBloomFiltersForSegments differs from the Lean mirror `packedPresize`", d)
+			}
+		})
+		ctx.Hist("files.presize", fmt.Sprintf("packed batch of %s segments", c07Bucket(len(g.segs))))
 	default:
 		ctx.Hist("files.strategy", "skipped-presize-unknown")
 		return
@@ -1589,6 +1629,121 @@ func (cs *c07Case) bufferGroup(f *parquet.File, rgi int) (c07Group, bool) {
 	return cs.groups[rgi], true
 }
 
+type c07Packed struct {
+	segs []int // source row groups written into this output row group's batch
+}
+
+// rows [lo, hi) of the source row group si
+func (cs *c07Case) srcSpan(si int) (lo, hi int) {
+	for i := 0; i < si; i++ {
+		lo += int(cs.srcRows[i])
+	}
+	return lo, lo + int(cs.srcRows[si])
+}
+
+// packedGroup: for the "file-merge" path, which source row groups were batched into output row group rgi.
+// Go transcription of the loop of writeSegmentsPacked, compared with the Lean mirror `packBatches`; the
+// row counts of the output row groups it implies (a batch of >= 2 segments: one row group; a single
+// segment within the limit: one row group; a single segment above the limit: split by the row path)
+// must be those of the file.
+func (cs *c07Case) packedGroup(ctx *core.Ctx, b *c07Batch, f *parquet.File, rgi int) (c07Packed, bool) {
+	if cs.packedOk == 0 {
+		cs.packedOk = 2
+		maxRows := cs.Opts.MaxRows
+		if maxRows <= 0 {
+			maxRows = math.MaxInt64
+		}
+		anySmall := false
+		for _, n := range cs.srcRows {
+			anySmall = anySmall || n <= maxRows
+		}
+		// splittableCopyableSegments: >= 2 segments, one of them writable through a segment path
+		if len(cs.srcRows) >= 2 && anySmall {
+			var batches [][]int
+			var pending []int
+			pendingRows := int64(0)
+			flush := func() {
+				if len(pending) > 0 {
+					batches = append(batches, pending)
+				}
+				pending, pendingRows = nil, 0
+			}
+			var toks []string
+			for i, n := range cs.srcRows {
+				if n <= maxRows {
+					toks = append(toks, fmt.Sprintf("%d.1", n))
+					if pendingRows > 0 && pendingRows+n > maxRows {
+						flush()
+					}
+					pending = append(pending, i)
+					pendingRows += n
+				} else {
+					toks = append(toks, fmt.Sprintf("%d.0", n))
+					flush()
+					batches = append(batches, []int{i})
+				}
+			}
+			flush()
+			var bt []string
+			for _, bb := range batches {
+				bt = append(bt, strings.Trim(strings.ReplaceAll(fmt.Sprint(bb), " ", "+"), "[]"))
+			}
+			mr := cs.Opts.MaxRows
+			if mr <= 0 {
+				mr = 1 << 62
+			}
+			req := fmt.Sprintf("bloom.pack %d %s", mr, strings.Join(toks, ","))
+			want := "ok " + strings.Join(bt, ",")
+			desc := cs.describe(ctx.Seed)
+			b.add(req, func(resp string) {
+				if resp != want {
+					desc["request"], desc["go"], desc["lean"] = req, want, resp
+					ctx.Fail("L2", "packed-batches-vs-mirror", "harness transcription of writeSegmentsPacked differs from the Lean mirror `packBatches`", desc)
+				}
+			})
+			var sizes []int64
+			var groups []c07Packed
+			for _, bb := range batches {
+				n := int64(0)
+				for _, si := range bb {
+					n += cs.srcRows[si]
+				}
+				if len(bb) == 1 && n > maxRows {
+					for n > 0 {
+						k := min(n, maxRows)
+						sizes, groups = append(sizes, k), append(groups, c07Packed{segs: bb})
+						n -= k
+					}
+				} else {
+					sizes, groups = append(sizes, n), append(groups, c07Packed{segs: bb})
+				}
+			}
+			rgs := f.RowGroups()
+			ok := len(rgs) == len(sizes)
+			for i := 0; ok && i < len(rgs); i++ {
+				ok = rgs[i].NumRows() == sizes[i]
+			}
+			if ok {
+				cs.packed, cs.packedOk = groups, 1
+				ctx.Hist("files.packed-layout", "as predicted")
+			} else {
+				var got []int64
+				for _, rg := range rgs {
+					got = append(got, rg.NumRows())
+				}
+				desc["source_row_groups"], desc["predicted_row_groups"], desc["file_row_groups"] = cs.srcRows, sizes, got
+				ctx.Fail("L2", "packed-row-group-layout-vs-mirror", "the output row groups of WriteRowGroup(merge of file row groups) are not those the mirror of writeSegmentsPacked predicts", desc)
+			}
+		} else {
+			ctx.Hist("files.packed-layout", "not split into segments")
+		}
+	}
+	if cs.packedOk != 1 || rgi >= len(cs.packed) {
+		return c07Packed{}, false
+	}
+	return cs.packed[rgi], true
+}
+
 // corpus case: {"path":..,"cols":[..],"opts":{..},"rows":[[["tok",..] per column] per row]}; tokens as
 // in the driver protocol (decimal bit patterns, hex bytes, "e" = empty)
 type c07CorpusCase struct {
@@ -1655,6 +1810,9 @@ type c07ReplayFile struct {
 		Case *struct {
 			Index int `json:"index"`
 		} `json:"case"`
+		MultiCase *struct {
+			Index int `json:"index"`
+		} `json:"multi_case"`
 	} `json:"detail"`
 }
 
